@@ -109,6 +109,8 @@ def units(tier):
     us = [("unit_rank_data", (n,)) for n in range(1, (6 if tier == "quick" else 8))]
     us += [("unit", (m, s)) for m in extract.MODELS for s in shapes(tier, nmax=4 if tier == "quick" else 6)]
     us += [("unit", (m, (1,) * n, True)) for m in extract.MODELS for n in range(2, (4 if tier == "quick" else 6) + 1)]
+    if tier == "quick":
+        us += [("unit", (m, (1,) * 6)) for m in extract.MODELS]
     return us
 
 
